@@ -17,8 +17,8 @@ func firstReturnFrom(b *ssa.BasicBlock) *ssa.Return {
 				return ret
 			}
 		}
-		if len(b.Succs) == 1 {
-			b = b.Succs[0]
+		if len(b.Succs) == 1 && len(b.Succs[0].Preds) == 1 {
+			b = b.Succs[0] // still on this edge only (not a join with the other branch)
 		} else {
 			return nil
 		}
